@@ -280,12 +280,132 @@ Definition reorder (g : grid) (bns : list str) (cns : list key2) : res grid :=
   | _ => do gl <- reorder_conns g1 cns; Ok (set_clist (fst gl) (snd gl))
   end.
 
+(** ** minc(volume_fractions, ..., blocks, matrix_blockname, minc_rockname, ..., atmos_volume): bookkeeping
+    What is abstract: the MINC geometry (it is computed before the loop over the blocks and only
+    sets volumes, distances and areas) and the volume test [0 < blk.volume < atmos_volume], which
+    enters as the list [inel] of the names of the blocks that FAIL it (the caller of the model
+    evaluates the inequality).  [mb] = matrix_blockname(blkname, level), [mr] = minc_rockname(
+    rockname, level); [levels] = len(volume_fractions) - 1 = the number of matrix levels. *)
+Definition smem (n : str) (l : list str) : bool := existsb (str_eqb n) l.
+(** [duplicate_rock(newrockname, r)]: a fresh rock type of that name unless the name is registered *)
+Definition duplicate_rock (g : grid) (newname : str) : res grid :=
+  match rget g newname with Some _ => Ok g | None => add_rocktype g newname end.
+Section Minc.
+  Variable mb : str -> nat -> str.
+  Variable mr : str -> nat -> str.
+  (** one pass of [for vf in volume_fractions[1:]] ([m] already incremented); returns the new [lastblk] *)
+  Definition minc_level (blkname : str) (orock : id) (g : grid) (last : id) (m : nat) : res (grid * id) :=
+    let mrockname := mr (rn g orock) m in
+    do g1 <- duplicate_rock g mrockname;
+    let mblockname := mb blkname m in
+    match bget g1 mblockname with
+    | Some _ => Raise PlainException                       (* "Duplicate MINC matrix block name" *)
+    | None =>
+        let i := next g1 in                                (* mincblk = t2block(mblockname, ..., self.rocktype[mrockname]) *)
+        do g2 <- add_block g1 mblockname mrockname;        (* self.add_block(mincblk) *)
+        let j := next g2 in                                (* con = t2connection([lastblk, mincblk], ...) *)
+        do g3 <- add_connection_obj (new_conn g2 last i) j;
+        Ok (g3, i)
+    end.
+  Fixpoint minc_levels (blkname : str) (orock : id) (g : grid) (last : id) (m n : nat) : res grid :=
+    match n with
+    | O => Ok g
+    | S n' => do s <- minc_level blkname orock g last (S m); minc_levels blkname orock (fst s) (snd s) (S m) n'
+    end.
+  (** the body of [for blk_index, blkname in enumerate(blocks)]; [names0] are the keys of [blkidict] *)
+  Definition minc_block (levels : nat) (inel names0 : list str) (g : grid) (blkname : str) : res grid :=
+    match bget g blkname with
+    | None => Raise KeyError                               (* self.block[blkname] *)
+    | Some blk =>
+        if smem blkname inel then Ok g                     (* not 0 < original_vol < atmos_volume *)
+        else if negb (smem blkname names0) then Raise KeyError       (* blkidict[blkname] *)
+        else
+          let orock := br g blk in                         (* original_rock = blk.rocktype *)
+          do g1 <- minc_levels blkname orock g blk 0 levels;
+          let frn := mr (rn g1 orock) 0 in
+          do g2 <- duplicate_rock g1 frn;
+          match rget g2 frn with
+          | None => Raise KeyError
+          | Some rj => Ok (set_brock g2 (fset (brock g2) blk rj))     (* blk.rocktype = self.rocktype[fract_rockname] *)
+          end
+    end.
+  Fixpoint minc_blocks (levels : nat) (inel names0 : list str) (g : grid) (blocks : list str) : res grid :=
+    match blocks with
+    | [] => Ok g
+    | n :: r => do g1 <- minc_block levels inel names0 g n; minc_blocks levels inel names0 g1 r
+    end.
+  Definition minc (levels : nat) (sel inel : list str) (g : grid) : res grid :=
+    match levels with
+    | O => Raise PlainException                            (* "Need at least two volume fractions" *)
+    | _ =>
+        let names0 := map (bn g) (blist g) in
+        match (match sel with [] => names0 | _ => sel end) with      (* blocks is None or blocks == [] *)
+        | [] => Raise IndexError                           (* blocks[0] *)
+        | blocks => minc_blocks levels inel names0 g blocks
+        end
+    end.
+End Minc.
+
+(** ** a second grid over the same objects: its six containers.  [g1 + g2] and [g1.embed(g2, con)]
+    return a NEW grid that holds the operands' own objects (nothing is copied). *)
+Record view := { v_rlist : list id; v_rdict : list (str * id); v_blist : list id; v_bdict : list (str * id);
+                 v_clist : list id; v_cdict : list (key2 * id) }.
+Definition view0 : view := {| v_rlist := []; v_rdict := []; v_blist := []; v_bdict := []; v_clist := []; v_cdict := [] |}.
+Definition view_of (g : grid) : view :=
+  {| v_rlist := rlist g; v_rdict := rdict g; v_blist := blist g; v_bdict := bdict g; v_clist := clist g; v_cdict := cdict g |}.
+Definition with_view (g : grid) (v : view) : grid :=
+  {| rname := rname g; bname := bname g; brock := brock g; bcn := bcn g; cb0 := cb0 g; cb1 := cb1 g;
+     rlist := v_rlist v; rdict := v_rdict v; blist := v_blist v; bdict := v_bdict v; clist := v_clist v; cdict := v_cdict v;
+     next := next g |}.
+
+Fixpoint add_rocktype_objs (g : grid) (l : list id) : res grid :=
+  match l with [] => Ok g | j :: r => do g1 <- add_rocktype_obj g j; add_rocktype_objs g1 r end.
+Fixpoint add_block_objs (g : grid) (l : list id) : res grid :=
+  match l with [] => Ok g | i :: r => do g1 <- add_block_obj g i; add_block_objs g1 r end.
+Fixpoint add_connection_objs (g : grid) (l : list id) : res grid :=
+  match l with [] => Ok g | j :: r => do g1 <- add_connection_obj g j; add_connection_objs g1 r end.
+(** one pass of [for grid in [self, other]]: the operand's objects go into [result] *)
+Definition add_grid (result : grid) (v : view) : res grid :=
+  do g1 <- add_rocktype_objs result (v_rlist v);
+  do g2 <- add_block_objs g1 (v_blist v);
+  add_connection_objs g2 (v_clist v).
+(** [a + b] for two grids over the objects of [g] *)
+Definition grid_add (g : grid) (a b : view) : res grid :=
+  do r1 <- add_grid (with_view g view0) a; add_grid r1 b.
+
+(** [set(names of self.blocklist) & set(names of subgrid.blocklist)] is not empty *)
+Definition common_name (g : grid) (a b : view) : bool :=
+  existsb (fun i => existsb (fun i' => str_eqb (bn g i) (bn g i')) (v_blist b)) (v_blist a).
+(** [a.embed(b, con)] for the connection object [j]; [fits] = [subvol < connection.block[0].volume].
+    [None]: one of the two refusals (a message is printed, nothing is built). *)
+Definition embed (g : grid) (a b : view) (j : id) (fits : bool) : res (option grid) :=
+  if fits then
+    if common_name g a b then Ok None
+    else
+      do r <- grid_add g a b;
+      (* connection.block = [result.block[blk.name] for blk in connection.block] *)
+      match bget r (bn r (c0 r j)), bget r (bn r (c1 r j)) with
+      | Some i0, Some i1 =>
+          let r1 := set_cb1 (set_cb0 r (fset (cb0 r) j i0)) (fset (cb1 r) j i1) in
+          do r2 <- add_connection_obj r1 j;
+          Ok (Some r2)           (* result.block[hostblock.name].volume -= subvol: no bookkeeping *)
+      | _, _ => Raise KeyError
+      end
+  else Ok None.
+
 (** ** the edit alphabet *)
 Inductive op :=
   | AddRock (n : str) | DelRock (n : str) | CleanRocks | RenRock (a b : str)
   | AddBlock (n rk : str) | DelBlock (n : str) | Demote (ns : list str)
   | AddConn (a b : str) | DelConn (a b : str)
-  | Rename (m : list (str * str)) | Reorder (bns : list str) (cns : list key2).
+  | Rename (m : list (str * str)) | Reorder (bns : list str) (cns : list key2)
+  (** [g.minc(...)] with the naming functions, the number of matrix levels, the selection and the names failing the volume test *)
+  | Minc (mb mr : str -> nat -> str) (levels : nat) (sel inel : list str)
+  (** [g = g + h] ([other_first]: [g = h + g]) for a second grid [h] over the same objects *)
+  | AddGrid (h : view) (other_first : bool)
+  (** [g = g.embed(h, t2connection([obj i0, obj i1]))] (a new connection object joining two existing block
+      objects, in the grids or not); a refused embedding leaves [g] as it is *)
+  | Embed (h : view) (i0 i1 : id) (fits : bool).
 
 Definition step (g : grid) (o : op) : res grid :=
   match o with
@@ -300,6 +420,12 @@ Definition step (g : grid) (o : op) : res grid :=
   | DelConn a b => delete_connection g (a, b)
   | Rename m => rename_blocks g m
   | Reorder bns cns => reorder g bns cns
+  | Minc mb mr levels sel inel => minc mb mr levels sel inel g
+  | AddGrid h other_first => if other_first then grid_add g h (view_of g) else grid_add g (view_of g) h
+  | Embed h i0 i1 fits =>
+      let g0 := new_conn g i0 i1 in
+      do r <- embed g0 (view_of g0) h (next g) fits;
+      Ok (match r with Some g' => g' | None => g0 end)
   end.
 
 Fixpoint run (g : grid) (ops : list op) : res grid :=
